@@ -100,8 +100,10 @@ Record slots := mkSlots {
   s_royalty_at : option N;          (* royalty_updated_at, nanoseconds *)
   s_legacy_minter : option N;       (* cw721 0.16 `minter` item (an address id) *)
   s_owner : option N;               (* cw-ownable owner (an address id) *)
-  s_status : option (bool * bool * bool)  (* minter STATUS: is_verified, is_blocked, is_explicit --
+  s_status : option (bool * bool * bool); (* minter STATUS: is_verified, is_blocked, is_explicit --
                                        written only by sudo UpdateStatus; no migrate function touches it *)
+  s_mintable : option N             (* MINTABLE_NUM_TOKENS: what is left to mint (0 after BurnRemaining /
+                                       sell-out); written by mint / burn only, never by a migration *)
 }.
 
 Record cstate := mkState { c_name : string; c_version : string; c_slots : slots }.
@@ -154,7 +156,7 @@ Definition migrate (c : contract) (now : N) (msg : option fmsg) (st : cstate)
           else if ver_ltb v (3, 9, 0) then
             do t <- minus_nanos now H12;
             Ok (set_version c (mkSlots (Some t) (s_frozen_meta sl) (s_enable_updatable sl)
-                                       (s_royalty_at sl) (s_legacy_minter sl) (s_owner sl) (s_status sl)), false)
+                                       (s_royalty_at sl) (s_legacy_minter sl) (s_owner sl) (s_status sl) (s_mintable sl)), false)
           else Ok (set_version c sl, false)
       end
   | KFactory =>
@@ -190,7 +192,7 @@ Definition migrate (c : contract) (now : N) (msg : option fmsg) (st : cstate)
             do roy <- (if ver_ltb v (3, 1, 0)
                        then do t <- minus_nanos now H24; Ok (Some t)
                        else Ok (s_royalty_at sl));
-            Ok (set_version c (mkSlots (s_last_discount sl) frozen enable roy (fst lo) (snd lo) (s_status sl)), false)
+            Ok (set_version c (mkSlots (s_last_discount sl) frozen enable roy (fst lo) (snd lo) (s_status sl) (s_mintable sl)), false)
       | _, _ => Err
       end
   end
